@@ -9,6 +9,7 @@ using namespace ob;
 template <class K, size_t R, int AXIS>
 void ob_c04_window_axis(const mk_t<K,size_t,R>& shape_, size_t w, const mk_t<K,size_t,R+1>& idx_, int axis)
 {
+    assume_len<R>(shape_); assume_len<R+1>(idx_);
     const auto shape = shape_; const auto idx = idx_;
     constexpr size_t ax = (size_t)(AXIS < 0 ? AXIS + (int)R : AXIS);
     ASSUME(axis == AXIS);
@@ -33,6 +34,7 @@ void ob_c04_window_axis(const mk_t<K,size_t,R>& shape_, size_t w, const mk_t<K,s
 template <class K, size_t R>
 void ob_c04_window_all(const mk_t<K,size_t,R>& shape_, const mk_t<K,size_t,R>& w_, const mk_t<K,size_t,2*R>& idx_)
 {
+    assume_len<R>(shape_); assume_len<R>(w_); assume_len<2*R>(idx_);
     const auto shape = shape_; const auto w = w_; const auto idx = idx_;
     for_<R>([&](auto I){ ASSUME((size_t)rd<I.value>(shape) >= 1); ASSUME((size_t)rd<I.value>(shape) < (1ul<<30)); ASSUME((size_t)rd<I.value>(w) >= 1); ASSUME((size_t)rd<I.value>(w) <= (size_t)rd<I.value>(shape)); });
     auto s = ix::shape_sliding_window(shape, w);
@@ -56,9 +58,10 @@ void ob_c04_window_negctl(const std::array<size_t,2>& shape_, size_t w, const st
 }
 #define WA(K,R,A) template void ob_c04_window_axis<K,R,A>(const mk_t<K,size_t,R>&, size_t, const mk_t<K,size_t,R+1>&, int);
 #define WAK(R,A) WA(k_std,R,A) WA(k_utl,R,A)
+WA(k_sv,2,0) WA(k_sv,2,-1) WA(k_sv,3,1)   // bounded run-time-length shapes
 WAK(1,0) WAK(1,-1) WAK(2,0) WAK(2,1) WAK(2,-1) WAK(2,-2) WAK(3,0) WAK(3,1) WAK(3,2) WAK(3,-1) WAK(3,-3)
 #define WN(K,R) template void ob_c04_window_all<K,R>(const mk_t<K,size_t,R>&, const mk_t<K,size_t,R>&, const mk_t<K,size_t,2*R>&);
-WN(k_std,1) WN(k_std,2) WN(k_std,3) WN(k_utl,1) WN(k_utl,2) WN(k_utl,3)
+WN(k_sv,2) WN(k_std,1) WN(k_std,2) WN(k_std,3) WN(k_utl,1) WN(k_utl,2) WN(k_utl,3)
 #ifdef VERIF_THOROUGH
 WAK(4,0) WAK(4,1) WAK(4,2) WAK(4,3) WAK(4,-1) WAK(4,-2) WAK(4,-4) WAK(3,-2) WN(k_std,4) WN(k_utl,4)
 #endif
